@@ -1,5 +1,7 @@
-\* exhaustive (quick): all histories of <= 4 calls; 2 snapshots, 2 load handles; growth to 12 nodes
-CONSTANTS Slots = {1, 2}  Handles = {1, 2}  MaxLevel = 5  MaxNodes = 12  MutNodes = {7}
+\* exhaustive (quick): all histories of <= 4 calls; 2 snapshots, 2 load handles; growth to 12 nodes.  Structural mutations only
+\* (Swap, Rotate, Grow, Detach): the parameter/composition/temperature fields are opaque pass-through values, their mutations
+\* are explored by DbState_cov.cfg (depth 3) and DbState_mc_thorough.cfg (depth 5)
+CONSTANTS Slots = {1, 2}  Handles = {1, 2}  MaxLevel = 5  MaxNodes = 12  MutNodes = {}
 INIT Init
 NEXT Next
 CONSTRAINT Bound
